@@ -70,6 +70,13 @@ CHECKS['C18'] = dict(
          'dimensional values (6 digits) must survive. Every shipped group x 3 unit choices too. Exploration.',
     note='Trusted: PyYAML scalar parsing. 6 significant digits = 5e-6 relative.',
     ref='DESIGN.md C18')
+CHECKS['C12'] = dict(
+    technique='Hypothesis synthetic libraries rendered to YAML in several unit presentations (libgen); metamorphic agreement across presentations and with the abstract data; rejection of unit-less dimensional values',
+    text='Each generated library (2-6 groups, zero/negative/tiny/large values, 0-7 Cp points, ranges) is written as non-dimensional keys, with a file-level default-unit block (also inside an included file under a '
+         'root with other defaults), with explicit per-value units and prefixes, and as a per-value mixture; all must load, store T_ref/range/table temperatures equal to the data, evaluate to the same Cp/R, H/RT, '
+         'S/R on a grid as plain numbers; a dimensional value with no unit available must make Load fail. Exploration.',
+    note='Trusted: unit factors from vlib.unitsref; gas constant 8.314472 J/(mol K) as documented in Consts.py; PyYAML.',
+    ref='DESIGN.md C12')
 NOT_YET = {}
 
 def main():
